@@ -8,6 +8,7 @@ import InToto.Model.Expiry
 import InToto.Proofs.PipeSigs
 import InToto.Generated.Facts
 import InToto.Proofs.Expiry
+import InToto.Model.StageOrder
 
 namespace InToto.C06
 open InToto InToto.Expiry InToto.ExpiryProofs
@@ -101,5 +102,11 @@ theorem earlier_stamp_is_smaller_instant (t t' : Stamp)
            (t.hour * 3600 + t.min * 60 + t.sec) * 1000000000 + t.nanos < (t'.hour * 3600 + t'.min * 60 + t'.sec) * 1000000000 + t'.nanos)) :
     t.unixNanos < t'.unixNanos :=
   unixNanos_strictMono t t' hr hr' h
+
+/-- REGENERATED FACT (stage order): in both entry points `VerifyLayoutExpiration` is called
+    unconditionally, before any link is loaded, any sublayout is followed and any inspection command is run -/
+theorem facts_expiry_before_links_and_inspections :
+    (StageOrder.beforeAll Generated.stagesInTotoVerify "VerifyLayoutExpiration" ["LoadLinksForLayout", "VerifyLinkSignatureThesholds", "VerifySublayouts", "VerifyArtifacts", "RunInspections", "GetSummaryLink"]) = true ∧
+    (StageOrder.beforeAll Generated.stagesInTotoVerifyWithDirectory "VerifyLayoutExpiration" ["LoadLinksForLayout", "VerifyLinkSignatureThesholds", "VerifySublayouts", "VerifyArtifacts", "RunInspections", "GetSummaryLink"]) = true := by decide
 
 end InToto.C06
